@@ -1,6 +1,7 @@
 """C02 / C03 / C08 driver: spec/MC_Val.tla -> real validate() -> spec/Trace_Val.tla"""
 from . import absmap as am
 from . import core, mutants, valgen
+from .common import safe_repr
 
 INVS = {"C02": ["C02_VerdictIsMeaning"], "C03": ["C03_ErrorsAreTrue"], "C08": ["C08_Total"]}
 
@@ -9,6 +10,67 @@ def describe(e):
     return {"schema": e["s"], "schema_repr": e.get("srepr"), "value": e["v"], "value_repr": e.get("vrepr"),
             "exc": e["exc"], "nerrs": e["nerrs"], "errors": e["errs"], "facts": e["facts"], "eq": e["eq"],
             "validate_or_fail": e["vof"]}
+
+
+def pathheap_cases(chk, events):
+    """spec/PathHeap.tla: the heap of mutable path objects.  With CopyOnDescend the invariant
+    "every error's path is the position it was raised at" holds in every state; without it TLC
+    must find the sibling leak (non-vacuity).  Every finished traversal is replayed on the real
+    validator: nested typed lists whose bad leaves are strings."""
+    import d42
+    consts = {"MaxDepth": "2" if chk.tier == "quick" else "3", "MaxFan": "2"}
+    res = chk.model_check("PathHeap", {"constants": dict(consts, CopyOnDescend="TRUE"),
+                                       "invariants": ["ErrorsPointAtTheirValue"]}, name="C03_PathHeap", dump=True)
+    bad = chk.model_check("PathHeap", {"constants": dict(consts, CopyOnDescend="FALSE"),
+                                       "invariants": ["ErrorsPointAtTheirValue"]}, name="C03_PathHeap_nocopy",
+                          expect_violation=True)
+    chk.require(bad.violated == "ErrorsPointAtTheirValue",
+                "PathHeap without the copy should violate the invariant (got %r)" % (bad.violated,))
+
+    def depth(t):
+        return 0 if t["leaf"] else 1 + max(depth(k) for k in t["kids"])
+
+    def value(t, d):
+        if t["leaf"]:
+            v = "x" if t["bad"] else 1
+            for _ in range(d):          # a leaf above the bottom level: wrap it to the schema's depth
+                v = [v]
+            return v
+        return [value(k, d - 1) for k in t["kids"]]
+
+    def schema_abs(d):
+        s = {"t": "int", "value": [], "min": [], "max": []}
+        for _ in range(d):
+            s = {"t": "list", "type": [s], "elems": [], "len": [], "min_len": [], "max_len": []}
+        return s
+
+    n = 0
+    for st in core.load_dump(res, only="stack = <<>>"):
+        if st["stack"]:
+            continue
+        tree = st["tree"]
+        d = depth(tree)
+        if tree["leaf"]:
+            continue
+        s = schema_abs(d)
+        real = am.g_schema(s)
+        v_real = value(tree, d)
+        ev = valgen.observe_validate(real, v_real)
+        ev.update({"id": len(events) + 1, "s": s, "v": am.a_value(v_real), "srepr": repr(real)[:200],
+                   "vrepr": safe_repr(v_real)[:200]})
+        events.append(ev)
+        n += 1
+        # the model's paths are exact for leaves at the bottom level; compare those
+        model_paths = sorted(tuple(p) for p in [st["heap"][e["pathid"] - 1] for e in st["errors"]])
+        real_paths = sorted(tuple(x["ix"] for x in er["path"])[: len(mp)] for er, mp in
+                            zip(sorted(ev["errs"], key=lambda e: [x["ix"] for x in e["path"]]), model_paths))
+        if len(ev["errs"]) != len(model_paths) or real_paths != model_paths:
+            chk.drift += 1
+            if len(chk.drift_samples) < 5:
+                chk.drift_samples.append({"what": "PathHeap paths differ", "value": repr(v_real),
+                                          "model": model_paths, "real": real_paths})
+    chk.count("pathheap_traversals", n)
+    chk.require(n >= 30, "too few PathHeap traversals (%d)" % n)
 
 
 def run(chk, prop):
@@ -46,7 +108,7 @@ def run(chk, prop):
             seen.add(k)
             ev = valgen.observe_validate(real, v_real)
             ev.update({"id": len(events) + 1, "s": s, "v": v_abs, "srepr": repr(real)[:300],
-                       "vrepr": repr(v_real)[:200]})
+                       "vrepr": safe_repr(v_real)[:200]})
             events.append(ev)
             chk.count("accepted" if (ev["exc"] == "" and ev["nerrs"] == 0) else
                       ("raised" if ev["exc"] else "rejected"))
@@ -82,13 +144,15 @@ def run(chk, prop):
                     continue
                 ev = valgen.observe_validate(real, v_real)
                 ev.update({"id": len(events) + 1, "s": s, "v": v_abs, "srepr": repr(real)[:300],
-                           "vrepr": repr(v_real)[:200]})
+                           "vrepr": safe_repr(v_real)[:200]})
                 events.append(ev)
                 chk.count("deep_pairs")
                 for er in ev["errs"]:
                     chk.count("kind_" + er["kind"])
                     if len(er["path"]) >= 2:
                         chk.count("errors_two_levels_down")
+    if prop == "C03":
+        pathheap_cases(chk, events)
     chk.require(len(events) >= 5000, "fewer than 5000 validate() calls (%d)" % len(events))
     chk.require(chk.counts.get("accepted", 0) >= 300 and chk.counts.get("rejected", 0) >= 1000,
                 "verdict mix too thin: %r" % chk.counts)
